@@ -89,7 +89,15 @@ class ScriptSock:
             return None
         if kind == "eof":
             S.assume(False, "sendall() has no end-of-stream outcome")
-        # a failing sendall may have transmitted any prefix; nothing may be assumed about it
+        # a failing sendall may have transmitted any prefix of the data before it failed (sendall is not restartable)
+        k = S.int("a%d.k" % i, 0, MAXSIZE)
+        S.assume(k <= len(data), "a failing sendall() transmitted between 0 and len(data) bytes")
+        if S.must(k == 0):
+            pass
+        else:
+            piece = data[:k]
+            self.wire = piece if self.wire is None else self.wire + piece
+            self.sent = self.sent + k
         self._raise(kind)
 
 
